@@ -9,7 +9,7 @@ def main():
     ap.add_argument("--tier", default=os.environ.get("VERIF_TIER", "quick"),
                     choices=["quick", "thorough"])
     ap.add_argument("--replay", default=None)
-    ap.add_argument("--jobs", type=int, default=int(os.environ.get("VERIF_JOBS", "5")))  # TEMPORARY 5 while many agents share the box; restore 16
+    ap.add_argument("--jobs", type=int, default=int(os.environ.get("VERIF_JOBS", "16")))
     a = ap.parse_args()
     seed = int(os.environ.get("VERIF_SEED", "0") or 0)
     from vf import core
